@@ -19,8 +19,7 @@ from vlib import spec as S
 from vlib.outcome import capture
 from vlib.prog import Program
 
-from ovld import MultiTypeMap
-from ovld.core import Signature
+from vlib.api import MultiTypeMap, Signature
 
 
 # ----------------------------------------------------------------------------- (i) Ovld histories
